@@ -16,7 +16,7 @@ from .kernel import (EXIT_OK, EXIT_VIOLATION, EXIT_HARNESS, HarnessError, VERIF_
 TIERS = {
     # property: tier: (seeded runs, soft wall deadline s, exhaustive depth)
     "C16": {"quick": (30000, 300, 2), "thorough": (1500000, 3300, 3)},
-    "C18": {"quick": (3000, 240, 0), "thorough": (200000, 3300, 0)},
+    "C18": {"quick": (6000, 300, 0), "thorough": (600000, 3300, 0)},
 }
 MAX_SHRINK_PER_KEY = 6
 
